@@ -539,11 +539,12 @@ pub fn run_case(c: &Case, c13: bool, w: &mut Walk) -> Result<(), String> {
                     );
                     ensure!(e.error_direction() == dir_of(end), "step {i} {op:?} failed: error_direction() = {:?}, expected {:?}", e.error_direction(), dir_of(end));
                     // the two renderings of the error (Display, and the panic unwrap_ctx! raises) name that offset
-                    // (checked on the last step of a history only: every prefix of an enumerated history is a case of its own)
-                    let text = if i + 1 == c.ops.len() { e.to_string() } else { format!(" {want} byte offset") };
+                    // (rendered once per distinct (offset, direction, kind): the text is a function of those alone)
+                    let fresh = first_rendering(&e, 0);
+                    let text = if fresh { e.to_string() } else { format!(" {want} byte offset") };
                     ensure!(text.contains(&format!(" {want} byte offset")), "step {i} {op:?} failed: Display {text:?} does not name offset {want}");
                     let e2 = e.copy();
-                    if i + 1 == c.ops.len() { match kvh::catch(move || -> () { e2.panic() }) {
+                    if fresh { match kvh::catch(move || -> () { e2.panic() }) {
                         Ok(()) => return Err(format!("step {i} {op:?}: ParseError::panic returned")),
                         Err(msg) => ensure!(msg.contains(&format!(" {want} byte offset")), "step {i} {op:?} failed: panic message {msg:?} does not name offset {want}"),
                     } }
@@ -569,13 +570,22 @@ pub fn run_case(c: &Case, c13: bool, w: &mut Walk) -> Result<(), String> {
             }
         }
         if c13 {
-            user_errors(&p, i, i + 1 == c.ops.len())?;
+            user_errors(&p, i, false)?;
         }
     }
     if c13 && c.ops.is_empty() {
-        user_errors(&p, usize::MAX, true)?;
+        user_errors(&p, usize::MAX, false)?;
     }
     Ok(())
+}
+
+thread_local! {
+    /// renderings (Display / panic message) are functions of (offset, direction, kind, message) alone: each
+    /// distinct tuple is rendered once per thread and then skipped
+    static RENDERED: std::cell::RefCell<std::collections::HashSet<(usize, u8, u8, u8)>> = std::cell::RefCell::new(std::collections::HashSet::new());
+}
+fn first_rendering(e: &ParseError<'_>, which: u8) -> bool {
+    RENDERED.with(|r| r.borrow_mut().insert((e.offset(), e.error_direction() as u8, e.kind() as u8, which)))
 }
 
 /// errors a user-written parsing function builds "for this point in parsing" (Parser::into_error /
@@ -600,7 +610,7 @@ fn user_errors(p: &Parser<'_>, i: usize, render: bool) -> Result<(), String> {
         ensure!(err.error_direction() == d, "after step {i}: {name} reports direction {:?}, the parser's is {d:?}", err.error_direction());
         ensure!(err.kind() == kind, "after step {i}: {name} reports kind {:?}, expected {kind:?}", err.kind());
         ensure!(err.copy() == err, "after step {i}: {name}: copy() differs from the error");
-        if !render {
+        if !render && !first_rendering(&err, 1 + (kind == ErrorKind::Other) as u8) {
             continue;
         }
         let text = err.to_string();
@@ -773,6 +783,31 @@ fn explore(ctx: &mut Ctx, c13: bool) {
         }
     }
     ctx.exhaustive_part(&format!("{} originals x base 7 x all op sequences of depth 3 over the reduced set of {} op instances", d3.len(), all_ops(3, false).len()));
+    // lead-byte sweep (depth 1, and depth 2 with skip / skip_back first): the first and last scalar of every UTF-8
+    // lead byte inside a short original; skip(n) / skip_back(n) round to char boundaries, the pattern operations
+    // compare encodings
+    let sweep: Vec<String> = gen::lead_byte_strings().into_iter().enumerate().filter(|(i, _)| i % 8 >= 6 || (!quick && i % 8 >= 3)).map(|(_, s)| s).collect();
+    for orig in &sweep {
+        let mut ops: Vec<Op> = all_ops(orig.len(), false).into_iter().filter(|m| !matches!(m, Op::Skip(_) | Op::SkipBack(_))).collect();
+        ops.extend(all_ops(orig.len(), true).into_iter().filter(|m| matches!(m, Op::Skip(_) | Op::SkipBack(_))));
+        // the swept char itself as char and as &str pattern
+        let c = orig.chars().find(|c| !c.is_ascii()).unwrap_or('x');
+        for pat in [Pat::C(c), Pat::S(c.to_string())] {
+            let p = || pat.clone();
+            ops.extend([Op::TrimMatches(p()), Op::TrimStartMatches(p()), Op::TrimEndMatches(p()), Op::StripPrefix(p()), Op::StripSuffix(p()), Op::FindSkip(p()), Op::RfindSkip(p()),
+                        Op::Split(p()), Op::Rsplit(p()), Op::SplitTerminator(p()), Op::RsplitTerminator(p()), Op::SplitKeep(p())]);
+        }
+        let skips: Vec<Op> = ops.iter().filter(|m| matches!(m, Op::Skip(_) | Op::SkipBack(_))).cloned().collect();
+        for a in &ops {
+            eval(ctx, c13, Case { orig: orig.clone(), base: 7, ops: vec![a.clone()] });
+        }
+        for a in &skips {
+            for b in &ops {
+                eval(ctx, c13, Case { orig: orig.clone(), base: 0, ops: vec![a.clone(), b.clone()] });
+            }
+        }
+    }
+    ctx.exhaustive_part(&format!("lead-byte sweep: {} originals around the first / last scalar of every UTF-8 lead byte x every op (depth 1) and skip/skip_back followed by every op (depth 2)", sweep.len()));
     if !c13 {
         // split protocols
         let mut n = 0u64;
